@@ -1,11 +1,19 @@
-(* C03 — property theorems only. Each is closed by [exact] of a lemma of Proofs*.v. *)
-From Coq Require Import List ZArith QArith Qabs Qminmax Bool String.
-From Gst Require Import lib.QAux C03.Table C03.IEval C03.Model C03.Valid C03.Witness C03.gen.CovTable C03.Proofs.
+(* C03 — property theorems only. Each is closed by [exact] of a lemma of Proofs*.v.
+   NOT claimed here (cited mathematics, see Valid.v): positive definiteness of the valid structures in their
+   reference dimension for all point sets.  What is proved: the generated validity table against the reference,
+   the translated closed forms against the hand-written ones, the basic properties of every polynomial closed
+   form, the anisotropic distance, the calculation modes, the closure properties of positive semi-definiteness,
+   the nugget effect, the enclosure of the exp/cos/sin forms, and the refutation of the 'Penta' structure in R^2. *)
+From Coq Require Import List ZArith QArith Qabs Qminmax Bool String Reals Qreals.
+From Interval Require Import Xreal Interval.
+From Gst Require Import lib.QAux lib.LinAlgQ C03.Table C03.IEval C03.Model C03.Spec C03.Valid C03.Witness C03.gen.CovTable
+  C03.Proofs C03.Proofs_basic C03.Proofs_psd C03.Proofs_aniso C03.Proofs_encl C03.Proofs_real.
 Import ListNotations.
 Local Open Scope Q_scope.
 
-(* The validity table regenerated from the headers agrees with the reference table except for the listed
-   discrepancies (each of which is reported as a finding and confirmed on the implementation). *)
+(* ---------------------------------------------------------------------------------------------- validity table *)
+(* The table regenerated from the headers agrees with the reference except for the listed discrepancies
+   (each reported as a finding and confirmed on the implementation by a point set). *)
 Theorem C03_table_ok_partial : forall e, In e cov_table ->
   forall code, In code (failures e) -> In (ce_name e, code) known_discrepancies.
 Proof. exact table_entry_ok. Qed.
@@ -17,8 +25,188 @@ Theorem C03_table_dim : forall e r,
 Proof. exact table_dim_ok. Qed.
 Print Assumptions C03_table_dim.
 
+Theorem C03_table_complete : forall e, In e cov_table -> exists r, lookup (ce_name e) ref_table = Some r.
+Proof. exact table_all_known. Qed.
+Print Assumptions C03_table_complete.
+
+(* the closed forms translated from the C++ sources are the hand-written ones (which the theorems below are about) *)
+Theorem C03_translated_forms : forall n f h,
+  gen_CovNugget n f h == cor_nugget h /\ gen_CovSpherical n f h == cor_spherical h /\ gen_CovCubic n f h == cor_cubic h /\
+  gen_CovTriangle n f h == cor_triangle h /\ gen_CovReg1D n f h == cor_reg1d h /\ gen_CovPenta n f h == cor_penta h /\
+  gen_CovWendland0 n f h == cor_wendland0 h /\ gen_CovWendland1 n f h == cor_wendland1 h /\
+  gen_CovWendland2 n f h == cor_wendland2 h /\ gen_CovLinear n f h == cor_linear n f h /\
+  gen_CovGC1 n f h == cor_linear n f h /\ gen_CovGC3 n f h == cor_gc3 n f h /\ gen_CovGC5 n f h == cor_gc5 n f h.
+Proof.
+  intros n f h.
+  split; [apply gen_nugget_ok|].
+  split; [apply gen_spherical_ok|].
+  split; [apply gen_cubic_ok|].
+  split; [apply gen_triangle_ok|].
+  split; [apply gen_reg1d_ok|].
+  split; [apply gen_penta_ok|].
+  split; [apply gen_wendland0_ok|].
+  split; [apply gen_wendland1_ok|].
+  split; [apply gen_wendland2_ok|].
+  split; [apply gen_linear_ok|].
+  split; [apply gen_gc1_ok|].
+  split; [apply gen_gc3_ok|].
+  apply gen_gc5_ok.
+Qed.
+Print Assumptions C03_translated_forms.
+Theorem C03_translated_classes :
+  gen_classes = ["CovNugget"; "CovSpherical"; "CovCubic"; "CovLinear"; "CovGC1"; "CovGC3"; "CovGC5"; "CovTriangle";
+                 "CovReg1D"; "CovPenta"; "CovWendland0"; "CovWendland1"; "CovWendland2"]%string.
+Proof. exact gen_classes_expected. Qed.
+
+(* ---------------------------------------------------------------------------------------------- closed forms *)
+(* cor 0 = 1, 0 <= cor <= 1 (or |cor| <= 1), zero beyond the support, continuity at the branch point *)
+Theorem C03_nugget_basic :
+  cor_nugget 0 == 1 /\ (forall h, 0 <= cor_nugget h <= 1) /\ (forall h, (1 # 10000000000) <= h -> cor_nugget h == 0).
+Proof. exact nugget_basic. Qed.
+Theorem C03_spherical_basic :
+  cor_spherical 0 == 1 /\ (forall h, 0 <= h -> 0 <= cor_spherical h <= 1) /\
+  (forall h, 1 <= h -> cor_spherical h == 0) /\ (forall h, 0 <= h -> h < 1 -> cor_spherical h <= (3#2) * (1 - h)).
+Proof. exact spherical_basic. Qed.
+Theorem C03_cubic_basic :
+  cor_cubic 0 == 1 /\ (forall h, 0 <= h -> 0 <= cor_cubic h <= 1) /\ (forall h, 1 <= h -> cor_cubic h == 0) /\
+  (forall h, 0 <= h -> h < 1 -> cor_cubic h <= (35#4) * (1 - h)).
+Proof. exact cubic_basic. Qed.
+Theorem C03_triangle_basic :
+  cor_triangle 0 == 1 /\ (forall h, 0 <= h -> 0 <= cor_triangle h <= 1) /\ (forall h, 1 <= h -> cor_triangle h == 0) /\
+  (forall h, 0 <= h -> h < 1 -> cor_triangle h == 1 - h).
+Proof. exact triangle_basic. Qed.
+Theorem C03_reg1d_basic :
+  cor_reg1d 0 == 1 /\ (forall h, 0 <= h -> -(1) <= cor_reg1d h <= 1) /\ (forall h, 2 <= h -> cor_reg1d h == 0) /\
+  (forall h, 0 <= h -> h < 1 -> Qabs (cor_reg1d h - (-(1#4))) <= 3 * (1 - h)) /\ cor_reg1d 1 == -(1#4) /\
+  (forall h, 1 <= h -> h < 2 -> -((1#4) * (2 - h)) <= cor_reg1d h <= 0).
+Proof. exact reg1d_basic. Qed.
+Theorem C03_wendland0_basic :
+  cor_wendland0 0 == 1 /\ (forall h, 0 <= h -> 0 <= cor_wendland0 h <= 1) /\ (forall h, 1 <= h -> cor_wendland0 h == 0) /\
+  (forall h, 0 <= h -> h < 1 -> cor_wendland0 h <= 1 - h).
+Proof. exact wendland0_basic. Qed.
+Theorem C03_wendland1_basic :
+  cor_wendland1 0 == 1 /\ (forall h, 0 <= h -> 0 <= cor_wendland1 h <= 1) /\ (forall h, 1 <= h -> cor_wendland1 h == 0) /\
+  (forall h, 0 <= h -> h < 1 -> cor_wendland1 h <= 5 * (1 - h)).
+Proof. exact wendland1_basic. Qed.
+Theorem C03_wendland2_basic :
+  cor_wendland2 0 == 1 /\ (forall h, 0 <= h -> 0 <= cor_wendland2 h <= 1) /\ (forall h, 1 <= h -> cor_wendland2 h == 0) /\
+  (forall h, 0 <= h -> h < 1 -> cor_wendland2 h <= (56#3) * (1 - h)).
+Proof. exact wendland2_basic. Qed.
+Print Assumptions C03_wendland2_basic.
+(* the published factorised forms (Wendland phi_{3,k}; spherical; cubic) *)
+Theorem C03_factorised : forall h,
+  1 - (1#2) * h * (3 - h * h) == ((1-h)*(1-h)) * (1 + (1#2)*h) /\
+  1 - (h*h) * (7 + h * (-(35#4) + (h*h) * ((7#2) - (3#4) * (h*h)))) == ((1-h)*(1-h)*(1-h)*(1-h)) * (1 + 4*h + 3*h*h + (3#4)*h*h*h) /\
+  1 - 2 * h + h * h == (1-h)*(1-h) /\
+  1 - (h * h) * (10 - h * (20 - h * (15 - h * 4))) == ((1-h)*(1-h)*(1-h)*(1-h)) * (4*h + 1) /\
+  1 - (h*h) * ((28#3) - (h*h) * (70 - h * ((448#3) - h * (140 - h * (64 - h * (35#3)))))) ==
+    ((1-h)*(1-h)*(1-h)*(1-h)*(1-h)*(1-h)) * ((35*h*h + 18*h + 3) / 3).
+Proof.
+  intro h. split; [apply spherical_factor|]. split; [apply cubic_factor|]. split; [apply wendland0_factor|].
+  split; [apply wendland1_factor|apply wendland2_factor].
+Qed.
+(* intrinsic structures: the variogram form; rational structures with an integer exponent *)
+Theorem C03_linear_variogram : forall n r h, cor_linear n r 0 - cor_linear n r h == h.
+Proof. exact linear_variogram. Qed.
+Theorem C03_power1_variogram : forall a h, 0 <= h -> cor_power1 a 0 - cor_power1 a h == h.
+Proof. exact power1_variogram. Qed.
+Theorem C03_cauchy_basic : forall n, cor_cauchy n 0 == 1 /\ forall h, 0 < cor_cauchy n h <= 1.
+Proof. exact cauchy_basic. Qed.
+Theorem C03_gamma_basic : forall n, cor_gamma n 0 == 1 /\ forall h, 0 <= h -> 0 < cor_gamma n h <= 1.
+Proof. exact gamma_basic. Qed.
+(* exp / cos / sin forms over R *)
+Theorem C03_exponential_basic : corR_exponential 0 = 1%R /\ forall h, (0 <= h -> 0 < corR_exponential h <= 1)%R.
+Proof. exact exponential_basic. Qed.
+Print Assumptions C03_exponential_basic.
+Theorem C03_gaussian_basic : corR_gaussian 0 = 1%R /\ forall h, (0 < corR_gaussian h <= 1)%R.
+Proof. exact gaussian_basic. Qed.
+Theorem C03_cosinus_basic : corR_cosinus 0 = 1%R /\ forall h, (-1 <= corR_cosinus h <= 1)%R.
+Proof. exact cosinus_basic. Qed.
+Theorem C03_cosexp_basic : forall p, corR_cosexp p 0 = 1%R /\ forall h, (0 <= h -> -1 <= corR_cosexp p h <= 1)%R.
+Proof. exact cosexp_basic. Qed.
+Theorem C03_matern32_basic : corR_matern32 0 = 1%R /\ forall h, (0 <= h -> 0 < corR_matern32 h <= 1)%R.
+Proof. exact matern32_basic. Qed.
+Theorem C03_sinc_basic : forall h, (0 < h -> -1 <= corR_sinc h <= 1)%R.
+Proof. exact sinc_basic. Qed.
+
+(* the 'Penta' closed form is the 1-D regularised one, and it does not vanish beyond its range (scadef = 1) *)
+Theorem C03_penta_is_reg1d : forall h, cor_penta h = cor_reg1d h.
+Proof. exact penta_is_reg1d. Qed.
+Theorem C03_penta_beyond_range_refuted : exists h, 1 < h /\ ~ cor_penta h == 0.
+Proof. exact penta_beyond_range. Qed.
+
+(* ---------------------------------------------------------------------------------------------- enclosures *)
+(* the square-root bracket used for the normalised distance *)
+Theorem C03_sqrt_bracket : forall q, 0 <= q ->
+  0 <= fst (sqrt_bracket q) /\ fst (sqrt_bracket q) <= snd (sqrt_bracket q) /\
+  fst (sqrt_bracket q) * fst (sqrt_bracket q) <= q /\ q <= snd (sqrt_bracket q) * snd (sqrt_bracket q) /\
+  snd (sqrt_bracket q) - fst (sqrt_bracket q) <= 1 # pow2b.
+Proof. exact sqrt_bracket_spec. Qed.
+Print Assumptions C03_sqrt_bracket.
+(* the interval evaluator encloses the real closed form, for every real distance inside the bracket *)
+Theorem C03_enclosure : forall type param hlo hhi (h : R) a b,
+  cor_trans type param hlo hhi = Some (a, b) -> (Q2R hlo <= h <= Q2R hhi)%R ->
+  exists v, cor_R type param h = Some v /\ (Q2R a <= v <= Q2R b)%R.
+Proof. exact cor_trans_encloses. Qed.
+Print Assumptions C03_enclosure.
+
+(* ---------------------------------------------------------------------------------------------- anisotropy, modes *)
+Theorem C03_aniso_symmetry : forall cs ndim m i j p1 p2,
+  model_eval cs ndim m i j p1 p2 = model_eval cs ndim m i j p2 p1.
+Proof. exact model_eval_sym. Qed.
+Print Assumptions C03_aniso_symmetry.
+Theorem C03_aniso_distance_only : forall c ndim m i j p1 p2 q1 q2,
+  h2_of c p1 p2 = h2_of c q1 q2 -> cova_eval c ndim m i j p1 p2 = cova_eval c ndim m i j q1 q2.
+Proof. exact cova_eval_distance. Qed.
+(* along the a-th column of an orthonormal rotation matrix the squared normalised distance of an increment of
+   length |t| is (t / scale_a)^2: the range is measured along the rotated anisotropy axes *)
+Theorem C03_aniso_axis : forall rot scales (a : nat) (t : Q),
+  (a < List.length scales)%nat ->
+  (forall i, (i < List.length scales)%nat -> ldot (col rot i) (col rot a) == delta i a) ->
+  norm2 (transformed rot scales (map (fun x => t * x) (col rot a))) == (t / nth a scales 1) * (t / nth a scales 1).
+Proof. exact range_along_axis. Qed.
+Print Assumptions C03_aniso_axis.
+Theorem C03_variogram_mode : forall c ndim unit h2 a0 b0 a b,
+  cor_at c ndim 0 = Some (a0, b0) -> cor_at c ndim h2 = Some (a, b) ->
+  cor_from_h2 c ndim {| m_asvario := true; m_unitary := unit; m_order := 0; m_active := None |} h2 = Some (a0 - b, b0 - a).
+Proof. exact vario_mode_enc. Qed.
+Theorem C03_unitary_mode : forall c ndim m i j h2,
+  m_unitary m = true -> cova_eval_h2 c ndim m i j h2 = cor_from_h2 c ndim m h2.
+Proof. exact unitary_mode. Qed.
+Theorem C03_matrix_definition : forall cs ndim m nvar pts, cov_matrix cs ndim m nvar pts = cov_matrix_spec cs ndim m nvar pts.
+Proof. exact cov_matrix_eq. Qed.
+
+(* ---------------------------------------------------------------------------------------------- PSD closure *)
+Theorem C03_psd_closure_sum : forall n K L, psd n K -> psd n L -> psd n (fun i j => K i j + L i j).
+Proof. exact psd_add. Qed.
+Theorem C03_psd_closure_scale : forall n c K, 0 <= c -> psd n K -> psd n (fun i j => c * K i j).
+Proof. exact psd_scale. Qed.
+(* any linear recombination of the points; in particular relabelling, sub-sampling, repeated points *)
+Theorem C03_psd_closure_congruence : forall n m B K, psd m K -> psd n (congr m B K).
+Proof. exact psd_congr. Qed.
+Theorem C03_psd_closure_relabel : forall n m (s : nat -> nat) K,
+  (forall i, (i < n)%nat -> (s i < m)%nat) -> psd m K -> psd n (fun i j => K (s i) (s j)).
+Proof. exact psd_relabel. Qed.
+Theorem C03_psd_gram : forall n r B, psd n (fun i j => sumn r (fun l => B i l * B j l)).
+Proof. exact psd_gram. Qed.
+(* entrywise product with a Gram matrix (Schur product theorem for a factorised second factor) *)
+Theorem C03_psd_closure_schur : forall n r (B : fmat) K, psd n K -> psd n (fun i j => K i j * sumn r (fun l => B i l * B j l)).
+Proof. exact psd_schur_gram. Qed.
+(* sill (x) kernel for a sill matrix A.A^T *)
+Theorem C03_psd_closure_sill : forall nv n r (A : fmat) K,
+  psd n K -> forall x, 0 <= quad2 nv n (fun v w => sumn r (fun l => A v l * A w l)) K x.
+Proof. exact psd_kron. Qed.
+Print Assumptions C03_psd_closure_sill.
+(* nugget effect: any number of pairwise distinct points, any dimension *)
+Theorem C03_psd_nugget : forall n (s : Q) (H : fmat),
+  0 <= s -> (forall i, (i < n)%nat -> H i i == 0) ->
+  (forall i j, (i < n)%nat -> (j < n)%nat -> i <> j -> (1 # 10000000000) <= H i j) ->
+  psd n (fun i j => s * cor_nugget (H i j)).
+Proof. exact psd_nugget. Qed.
+
+(* ---------------------------------------------------------------------------------------------- the refutation *)
 (* The 'Penta' closed form is not positive semi-definite in R^2: seven points with integer mutual distances,
-   range 32 (all normalised distances rational, the matrix is exact) and a vector x with x^T K x < 0. *)
+   range 32 (all normalised distances rational: the matrix is exact) and a vector x with x^T K x < 0. *)
 Theorem C03_penta_refuted :
   exists (pts : list (list Q)) (x : list Q) (K : list (list Q)),
     cov_matrix [penta_cova 32] 2 mode_default 1 pts = map (map (fun v => Some (v, v))) K /\
@@ -26,3 +214,50 @@ Theorem C03_penta_refuted :
     lquad K x < 0.
 Proof. exists penta_pts, penta_x, penta_K. exact penta_witness. Qed.
 Print Assumptions C03_penta_refuted.
+Theorem C03_penta_not_psd : ~ psd 7 (fun i j => get penta_K i j).
+Proof. exact penta_not_psd. Qed.
+Print Assumptions C03_penta_not_psd.
+
+(* ---------------------------------------------------------------------------------------------- non-vacuity *)
+(* hypotheses of the theorems above are satisfiable on non-trivial states *)
+Example C03_nonvacuous_axis :
+  (* rotation by the 3-4-5 angle, scales (8, 2): along the first rotated axis (3/5, 4/5) the range is 8 *)
+  let rot := [[3#5; -(4#5)]; [4#5; 3#5]] in
+  (forall i, (i < 2)%nat -> ldot (col rot i) (col rot 0) == delta i 0) /\
+  norm2 (transformed rot [8; 2] (map (fun x => 8 * x) (col rot 0))) == 1 /\
+  norm2 (transformed rot [8; 2] (map (fun x => 2 * x) (col rot 1))) == 1.
+Proof.
+  cbv zeta. split; [|split; vm_compute; reflexivity].
+  intros i Hi. destruct i as [|[|i]]; [vm_compute; reflexivity|vm_compute; reflexivity|exfalso; apply (Nat.nlt_0_r i); apply Nat.succ_lt_mono, Nat.succ_lt_mono; exact Hi].
+Qed.
+Example C03_nonvacuous_psd :
+  (* a Gram matrix that is not diagonal, and its relabelling with a repeated point *)
+  let B := fun i l : nat => inject_Z (Z.of_nat (i + 2 * l)) in
+  psd 3 (fun i j => sumn 2 (fun l => B i l * B j l)) /\
+  psd 4 (fun i j => (fun a b => sumn 2 (fun l => B a l * B b l)) (Nat.modulo i 3) (Nat.modulo j 3)) /\
+  sumn 2 (fun l => B 0%nat l * B 1%nat l) == 6.
+Proof.
+  cbv zeta. split; [apply psd_gram|split].
+  - apply (psd_relabel 4 3 (fun i => Nat.modulo i 3)); [intros; apply Nat.mod_upper_bound; discriminate|apply psd_gram].
+  - vm_compute. reflexivity.
+Qed.
+Example C03_nonvacuous_enclosure :
+  (* exp(-1/2) lies in the computed enclosure, which is narrower than 2^-90 *)
+  match cor_trans 1 0 (1#2) (1#2) with
+  | Some (a, b) => a < b /\ b - a < 1 # (2 ^ 90) /\ (60653 # 100000) < a /\ b < (60654 # 100000)
+  | None => False
+  end.
+Proof. vm_compute. repeat split; reflexivity. Qed.
+Example C03_nonvacuous_nugget :
+  psd 3 (fun i j => 2 * cor_nugget ((fun a b => if Nat.eqb a b then 0 else 1) i j)).
+Proof.
+  apply psd_nugget; [discriminate| |].
+  - intros i _. rewrite Nat.eqb_refl. reflexivity.
+  - intros i j _ _ Hij. destruct (Nat.eqb_spec i j); [contradiction|discriminate].
+Qed.
+Example C03_nonvacuous_variogram :
+  (* spherical structure, range 4, sill 3: variogram mode at distance 2 = 3 * (1 - 5/16) *)
+  let c := {| cv_type := 2; cv_param := 0; cv_scales := [4; 4]; cv_rot := [[1; 0]; [0; 1]]; cv_sill := [[3]]; cv_field := 4; cv_cov0 := 0 |} in
+  cova_eval c 2 {| m_asvario := true; m_unitary := false; m_order := 0; m_active := None |} 0 0 [0; 0] [2; 0]
+  = Some (33 # 16, 33 # 16).
+Proof. vm_compute. reflexivity. Qed.
